@@ -86,6 +86,7 @@ type FnCtx struct {
 	globalSeen map[string]bool
 	anchorsDone map[string]bool
 	ghosts   map[string]Val
+	exitBound map[int]bool
 	ghostAt  map[string]*ssa.BasicBlock
 	uncontracted map[string]bool
 	externs  map[string]bool
@@ -168,6 +169,18 @@ func (fc *FnCtx) unboundAnchors() []string {
 }
 
 func (fc *FnCtx) finalize() {
+	if fc.con != nil && fc.fn != nil {
+		// an exit clause that mentions names defined at no return of the function no longer speaks about the code
+		for i := range fc.con.Exits {
+			if fc.exitBound[i] {
+				continue
+			}
+			cl := &fc.con.Exits[i]
+			ob := &Obligation{Fn: fc.name, Name: fc.name + "#exit." + cl.Label + ".unbound", Kind: "anchor", Cond: "false", Guard: "true", fc: fc, Clause: cl,
+				Status: "failed", Solver: "contract binding", Src: "exit clause binds at no return (a local it mentions does not exist): " + cl.Src, Pos: fc.fn.Pos()}
+			fc.obls = append(fc.obls, ob)
+		}
+	}
 	for _, a := range fc.unboundAnchors() {
 		// an anchored clause that no longer finds its source line is a failed obligation, not a silent pass
 		ob := &Obligation{Fn: fc.name, Name: fc.name + "#anchor." + mangle(a), Kind: "anchor", Cond: "false", Guard: "true", fc: fc,
